@@ -27,7 +27,7 @@ func init() {
 			"sampling: a clean batch is evidence, not proof",
 		},
 		Engines:    []string{"INLINE"},
-		FaultKinds: []string{"get_error", "get_unbound", "op_error", "cancel_from"},
+		FaultKinds: []string{"get_error", "get_unbound", "op_error", "cancel_from", "buffer_reuse"},
 	}
 }
 
@@ -80,6 +80,31 @@ func (propC01) Gen(r *Rng, tier string) *World {
 	for i := 0; i < nb; i++ { // further bindings
 		w.Calls = append(w.Calls, Plan{Bind: g.Binding()})
 	}
+	if r.P(0.06) {
+		// a caller that keeps one buffer per list variable and refills it for
+		// every request: same backing array, same length, new contents
+		w.Extra = map[string]string{"reuse_buffers": "1"}
+		for i, n := 0, r.Range(1, 3); i < n; i++ {
+			q := w.Calls[len(w.Calls)-1].Clone()
+			for _, name := range sortedKeys(q.Bind) {
+				v := q.Bind[name]
+				switch v.T {
+				case "il":
+					v.IL = append([]int64(nil), v.IL...)
+					for j := range v.IL {
+						v.IL[j] = intPool[r.Intn(len(intPool))]
+					}
+				case "sl":
+					v.SL = append([]string(nil), v.SL...)
+					for j := range v.SL {
+						v.SL[j] = strPlain[r.Intn(len(strPlain))]
+					}
+				}
+				q.Bind[name] = v
+			}
+			w.Calls = append(w.Calls, q)
+		}
+	}
 	w.EnumFaults = r.P(0.6)
 	// random multi-fault plans: their fault positions are drawn against an
 	// estimate of the call count; positions beyond the actual count never fire
@@ -117,6 +142,7 @@ func (pr propC01) Run(w *World, st *Stats) *Violation {
 	st.World(wh)
 	st.T("world %x src=%s", wh, c.Src)
 
+	arena := map[string]interface{}{} // the caller's reusable list buffers, by variable
 	one := func(p *Plan) *Violation {
 		if w.API == "evalbool" {
 			q := p.Clone()
@@ -128,7 +154,35 @@ func (pr propC01) Run(w *World, st *Stats) *Violation {
 			st.Skipped++
 			return nil
 		}
-		out := c.Run(ops, p, "eval")
+		var out Outcome
+		if w.Extra["reuse_buffers"] == "1" {
+			env := NewEnv(ops, p)
+			env.Phase = "eval"
+			for name, v := range env.bind {
+				switch l := v.(type) {
+				case []int64:
+					buf, _ := arena[name].([]int64)
+					if buf == nil || cap(buf) < len(l) {
+						buf = make([]int64, len(l), len(l)+8)
+						arena[name] = buf
+					}
+					copy(buf[:len(l)], l)
+					env.bind[name] = buf[:len(l)]
+				case []string:
+					buf, _ := arena[name].([]string)
+					if buf == nil || cap(buf) < len(l) {
+						buf = make([]string, len(l), len(l)+8)
+						arena[name] = buf
+					}
+					copy(buf[:len(l)], l)
+					env.bind[name] = buf[:len(l)]
+				}
+			}
+			st.Faults["buffer_reuse"]++
+			out = c.RunEnv(env, p.Kind)
+		} else {
+			out = c.Run(ops, p, "eval")
+		}
 		st.Evals++
 		st.Steps += int64(out.Env.N)
 		st.AddFaults(out.Env.Fired)
@@ -272,6 +326,22 @@ func (propC01) runOneShot(w *World, st *Stats, ops map[string]*OpSpec) *Violatio
 			}
 		} else if out.Err == nil {
 			return viol(narrowed(w, p), "missing-error", "one-shot: reference fails with %v, engine returned %s", ref.Err, ValStr(out.Val))
+		}
+		// the operators passed with THIS call are the ones that run, with the
+		// reference's arguments, in its order
+		var want, got []Call
+		for _, c := range ref.Env.Log {
+			if c.Kind == "op" {
+				want = append(want, c)
+			}
+		}
+		for _, c := range env.Log {
+			if c.Kind == "op" {
+				got = append(got, c)
+			}
+		}
+		if d := logDiff(&w.Cfg, want, got); d != "" {
+			return viol(narrowed(w, p), "call-mismatch", "one-shot: operator calls received by the operators passed with this call differ from the reference: %s", d)
 		}
 		st.Probe("oneshot_runs")
 	}
